@@ -217,14 +217,18 @@ PROPS = {
     "C09": {
         "quick": [
             {"test": "TestC09Flow", "checks": 60000, "shards": 4},
+            {"test": "TestC09Complement", "checks": 10000},
         ],
         "thorough": [
-            {"test": "TestC09Flow", "checks": 2400000, "shards": 16},
+            {"test": "TestC09Flow", "checks": 2400000, "shards": 15},
+            {"test": "TestC09Complement", "checks": 400000},
         ],
         "assumptions": [
             "maps are iterated only with 'sorted' (unsorted order is Go's)",
             "ifchanged is generated only directly inside a loop that runs once per render: in nested loops 'the previous iteration' is read differently by Django (state per inner loop run) and pongo2 (state per render), and the property does not choose",
             "{% cycle name %} re-emission is not generated",
+            "forloop is not probed inside an empty branch, and loops nested in one do not look at Parentloop (Django renders empty outside the loop, pongo2 inside a zeroed forloop)",
+            "comparisons of nil with nil are discarded (Django: equal, pongo2: different); complementarity of ifequal/ifnotequal is checked for them without prescribing the result",
         ],
     },
     "C13": {
